@@ -551,7 +551,8 @@ def run_case(ch: Choices, params: dict) -> dict:
               "name_shared_across_modules": 0, "nested_shadows_module_level": 0,
               "failing_ops": 0, "ok_ops": 0, "final_round_ops": 0, "reference_forks": 0,
               "self_references": 0, "ops_vs_fresh_reference": 0, "ops_vs_first_occurrence": 0,
-              "repeat_right_after_failure": 0, "ops_from_another_thread": 0}
+              "repeat_right_after_failure": 0, "ops_from_another_thread": 0,
+              "module_edited_in_place": 0}
     # ---- raw history draws (resolved against the pool once it exists)
     n_ops = ch.rng_int(params.get("min_ops", 6), params.get("max_ops", 24), "n_ops")
     if ch.draw(10, "short_history") < 7:
@@ -563,7 +564,7 @@ def run_case(ch: Choices, params: dict) -> dict:
                     ch.draw(6, "op"), ch.draw(4, "again")) for _ in range(n_ops)]
     # ---- pool
     n_mod = ch.rng_int(1, 3, "n_modules")
-    mods, progs = [], []
+    mods, progs, modnames = [], [], []
     pool: list[tuple[int, str]] = []
     for mi in range(n_mod):
         mistake = None
@@ -586,6 +587,7 @@ def run_case(ch: Choices, params: dict) -> dict:
             continue
         mods.append(mod)
         progs.append(prog)
+        modnames.append(mod.__name__)
         from guppylang.defs import GuppyDefinition
         for name in prog["defs"]:
             if isinstance(getattr(mod, name, None), GuppyDefinition):
@@ -610,6 +612,10 @@ def run_case(ch: Choices, params: dict) -> dict:
             op = OPS[op_raw % 3]
         else:
             op = OPS[op_raw % 2]
+        if again == 0 and op_raw == 5 and len(history) > 2:
+            # the user edits the module's file in place (same number of lines) and re-runs
+            # it: every definition of that module is created anew from the edited source
+            history.append((("edit", pool[pi][0]), "edit", 0))
         history.append((pi, op, again))
     # once the faults stop: a final round over (up to 5 drawn) definitions
     order = ch.shuffle(list(range(len(pool))), "final_order")[:5]
@@ -619,27 +625,63 @@ def run_case(ch: Choices, params: dict) -> dict:
     # reference: those whose first occurrence in the history is latest (most exposed to
     # what came before).  For the other pairs the first occurrence in the history serves
     # as the reference (self-consistency: every later occurrence must equal it).
-    first_pos: dict[tuple[int, str], int] = {}
+    def edited(mi: int, k: int) -> str:
+        """Version k of module mi: the same program, every non-blank line with a trailing
+        comment (same number of lines, same meaning, different source text)."""
+        if k == 0:
+            return progs[mi]["source"]
+        return "\n".join(l + f"  # edit {k}" if l.strip() else l
+                         for l in progs[mi]["source"].splitlines()) + "\n"
+
+    def apply_edit(mi: int, k: int) -> None:
+        mods[mi] = genv.make_module(modnames[mi], edited(mi, k), filename=mods[mi].__file__)
+
+    # the edit state (edits applied per module so far) is part of what an op sees
+    first_pos: dict[tuple, int] = {}
+    state = [0] * len(mods)
+    keyed: list[tuple | None] = []
     for pos, (pi_, op_, _a) in enumerate(history + final):
-        first_pos.setdefault((pi_, op_), pos)
+        if op_ == "edit":
+            state[pi_[1]] += 1
+            keyed.append(None)
+            continue
+        key = (pi_, op_, tuple(state))
+        keyed.append(key)
+        first_pos.setdefault(key, pos)
     by_exposure = sorted(first_pos, key=lambda k: (-first_pos[k], k))
     max_refs = params.get("max_refs", 6)
-    refs: dict[tuple[int, str], dict] = {}
-    for (pi, op) in by_exposure[:max_refs]:
+    refs: dict[tuple, dict] = {}
+
+    def fresh_ref(pi: int, op: str, st: tuple) -> dict:
+        for mi_, k_ in enumerate(st):       # a session that only ever saw the edited files
+            for kk in range(1, k_ + 1):
+                apply_edit(mi_, kk)
         mi, name = pool[pi]
-        refs[(pi, op)] = reference_fork(lambda: do_op(getattr(mods[mi], name), op))
+        return do_op(getattr(mods[mi], name), op)
+
+    for key in by_exposure[:max_refs]:
+        refs[key] = reference_fork(lambda key=key: fresh_ref(*key))
         probes["reference_forks"] += 1
-        if refs[(pi, op)]["kind"] == "harness":
-            raise RuntimeError(f"reference fork failed: {refs[(pi, op)]}")
+        if refs[key]["kind"] == "harness":
+            raise RuntimeError(f"reference fork failed: {refs[key]}")
     fresh_keys = set(refs)
     # ---- the history
     counts: dict[int, int] = {}
     had_failure = False
     steps = 0
     rendered = []
+    state = [0] * len(mods)
     for phase, ops in (("history", history), ("final", final)):
         prev = None
         for pi, op, again in ops:
+            if op == "edit":
+                state[pi[1]] += 1
+                apply_edit(pi[1], state[pi[1]])
+                probes["module_edited_in_place"] += 1
+                rendered.append(f"<module m{pi[1]} edited in place and re-run (edit {state[pi[1]]})>")
+                log.add("edit", pi[1], state[pi[1]])
+                prev = None
+                continue
             if prev is not None and prev[2] and again == 2:
                 # right after a failure: the same op once more, before anything else can
                 # repair (or overwrite) what the failure left behind
@@ -652,11 +694,12 @@ def run_case(ch: Choices, params: dict) -> dict:
                 probes["ops_from_another_thread"] += 1
             got = do_op(getattr(mods[mi], name), op, other_thread)
             text = got.pop("_text", None)
-            if (pi, op) not in refs:
-                refs[(pi, op)] = dict(got)      # first occurrence = reference
+            rkey = (pi, op, tuple(state))
+            if rkey not in refs:
+                refs[rkey] = dict(got)      # first occurrence = reference
                 probes["self_references"] += 1
-            ref = refs[(pi, op)]
-            probes["ops_vs_fresh_reference" if (pi, op) in fresh_keys
+            ref = refs[rkey]
+            probes["ops_vs_fresh_reference" if rkey in fresh_keys
                    else "ops_vs_first_occurrence"] += 1
             rendered.append(f"m{mi}.{name}.{op}() -> {genv.short(got)}")
             log.add(phase, mi, name, op, genv.short(got))
